@@ -120,6 +120,26 @@ def split_dialect(prop, tier, seed):
                     fails.append({'replay': 'none', 'key': 'smart:%s:%r' % (policy, src), 'src': src, 'policy': policy, 'expected': want, 'observed': got})
         if len(fails) >= 5:
             break
+    # delimiters that are regular-expression metacharacters (or otherwise unusual) are ordinary single characters for the dialect
+    for d in ('|', '.', '$', '*', '\\', '[', '(', ')', '+', '?', '^', '{', ';', '\t', '#', 'Д'):
+        alpha = ['"', d, 'x', ' ']
+        for src in words(alpha, 5 if tier == 'quick' else 6):
+            distinct += 1
+            for preserve in (False, True):
+                n += 1
+                exp = ref_split(src, d, preserve)
+                try:
+                    got = csv_utils.split_quoted_str(src, d, preserve)
+                    got = (list(got[0]), got[1])
+                except Exception as e:
+                    got = repr(e)
+                if got != (exp[0], exp[1]):
+                    fails.append({'replay': 'split', 'key': 'split:%r:%r:%r' % (src, d, preserve), 'src': src, 'd': d, 'preserve': preserve, 'expected': exp, 'observed': got})
+                    break
+            if len(fails) >= 5:
+                break
+        if len(fails) >= 5:
+            break
     # whitespace policy splits on runs of U+0020 only; characters outside the special classes are interchangeable
     rnd = random.Random(seed)
     others = ['x', '\t', ' ', 'é', '中', '\x0b', ';', '\\']
@@ -306,9 +326,6 @@ def csv_roundtrip(prop, tier, seed):
                     if text is not None and text.startswith('﻿'):
                         continue
                     if recs != exp or ww or rw:
-                        # a lone empty single-field record writes an empty line: not representable (reads back as nothing / [''])
-                        if any(r == [''] for r in table):
-                            continue
                         fails.append({'replay': 'roundtrip', 'key': 'rt:%s:%r:%r:%r' % (policy, d, sep, table), 'table': table, 'd': d, 'policy': policy, 'sep': sep, 'expected': exp, 'observed': recs, 'warnings': [ww, rw]})
                         if len(fails) >= 5:
                             break
@@ -316,6 +333,18 @@ def csv_roundtrip(prop, tier, seed):
                     break
             if len(fails) >= 5:
                 break
+    # single-column tables with empty fields: an empty line is the record [''] (every policy but whitespace), wherever it stands
+    for policy, d in (('simple', ','), ('simple', '\t'), ('quoted', ','), ('quoted', ';'), ('quoted_rfc', ','), ('monocolumn', '')):
+        for table in ([['a'], [''], ['b']], [[''], ['']], [['']], [['a'], ['']], [[''], ['a']], [[''], [''], ['']]):
+            for sep in ('\n', '\r\n'):
+                n += 1
+                try:
+                    text, ww = write_table(table, d, policy, sep)
+                    recs, hdr, rw = read_table(text, d, policy)
+                except Exception as e:
+                    recs, ww, rw = repr(e), [], []
+                if recs != table or ww or rw:
+                    fails.append({'replay': 'roundtrip', 'key': 'rt-empty-line:%s:%r:%r:%r' % (policy, d, sep, table), 'table': table, 'd': d, 'policy': policy, 'sep': sep, 'expected': table, 'observed': recs, 'warnings': [ww, rw]})
     # zero-field records under the whitespace policy: an empty line is a record without fields
     for table in ([[]], [[], []], [[], [], []]):      # rectangular (ragged tables rightly warn about field counts)
         for sep in ('\n', '\r\n'):
